@@ -919,9 +919,14 @@ void DOMLSSerializerImpl::processNode(const DOMNode* const nodeToWrite, int leve
                     }
                     if (XMLString::equals(ns, XMLUni::fgXMLNSURIName) || checkFilter(attribute) == DOMNodeFilter::FILTER_ACCEPT)
                     {
-                        *fFormatter  << XMLFormatter::NoEscapes
-                                     << chSpace << attribute->getNodeName()
-                                     << chEqual << chDoubleQuote
+                        // the name has to be representable: no character reference can stand in a name
+                        TRY_CATCH_THROW
+                        (
+                            *fFormatter  << XMLFormatter::NoEscapes
+                                         << chSpace << attribute->getNodeName();
+                        )
+                        setURCharRef();
+                        *fFormatter  << chEqual << chDoubleQuote
                                      << XMLFormatter::AttrEscapes;
                         if (getFeature(ENTITIES_ID))
                         {
